@@ -12,6 +12,7 @@
 (* TLC is the comparator of the recorded configuration state.              *)
 (***************************************************************************)
 EXTENDS Integers, Sequences, FiniteSets, TLC, Json
+LR == INSTANCE LexerRules
 VARIABLE st
 Logged == ndJsonDeserialize("artefacts.ndjson")
 Recs(kind) == { i \in 1..Len(Logged) : Logged[i].kind = kind }
@@ -53,6 +54,12 @@ ConstantsNumberTheVocabulary ==
   /\ { <<Logged[i].lang, Logged[i].artefact>> : i \in Recs("constants") } = {"go", "js", "java"} \X {"lexer", "parser"}
   /\ \A l \in {"go", "js", "java"} : /\ Consts(l, "lexer") = TokenConsts("lexer") \cup ModeConsts
                                       /\ Consts(l, "parser") = TokenConsts("parser") \cup RuleConsts
+\* every rule of OpenFGALexer.g4 reads as spec/Lexer.tla transcribes it (LexerRules.tla), and the rules stand in that order: the lexer
+\* whose behaviour the token traces validate is the lexer this grammar describes
+LexerRulesLogged == Logged[CHOOSE i \in Recs("lexerrules") : TRUE].list
+LexerGrammarAsTranscribed ==
+  /\ Len(LexerRulesLogged) = Len(LR!RuleList)
+  /\ \A j \in 1..Len(LR!RuleList) : j <= Len(LexerRulesLogged) => LexerRulesLogged[j][1] = LR!RuleList[j][1] /\ LexerRulesLogged[j][2] = LR!RuleList[j][2]
 \* per parser rule, the tokens and rules its ATN sub-automaton refers to are those its grammar body names
 AtnRefs == Logged[CHOOSE i \in Recs("atnrefs") : TRUE].refs
 RuleBodiesMatchATN ==
